@@ -265,13 +265,13 @@ STDLIB_AXIOMS_ALLOWED = (
 )
 
 
-def hygiene():
-    """No Admitted / admit / Axiom / Parameter / Conjecture / disabled checks anywhere in coq/."""
+def hygiene(files=None):
+    """No Admitted / admit / Axiom / Parameter / Conjecture / disabled checks in the given files of coq/ (default: all)."""
     bad = []
     pat = re.compile(r'\b(Admitted|admit|Axiom|Axioms|Parameter|Parameters|Conjecture|Hypothesis|Hypotheses|Variable|Variables)\b|'
                      r'Unset\s+Guard|bypass_check|type-in-type|impredicative-set|Admit\s+Obligations|Unset\s+Positivity|'
                      r'Unset\s+Universe\s+Checking')
-    for rel in coq_project_files():
+    for rel in (coq_project_files() if files is None else files):
         depth = 0
         for i, line in enumerate(open(os.path.join(COQ, rel)), 1):
             code = re.sub(r'\(\*.*?\*\)', '', line)
@@ -518,10 +518,13 @@ def main_check(prop, module, argv):
                 if nm.split('.')[-1] not in STDLIB_AXIOMS_ALLOWED:
                     proof_broken.append({'file': 'coq/Props/%s.v' % prop, 'line': 0, 'statement': thm,
                                          'message': 'depends on an axiom outside the named trusted base: ' + nm})
-    bad_hyg = hygiene()
+    n_obl, n_done, cone_files = count_obligations(prop)
+    # hygiene decides for the files this property's theorems depend on; findings elsewhere in the development are
+    # recorded in the evidence (they concern other properties' checks)
+    bad_hyg = hygiene(cone_files)
     for b in bad_hyg:
         proof_broken.append({'file': 'coq', 'line': 0, 'statement': 'hygiene', 'message': b})
-    n_obl, n_done, cone_files = count_obligations(prop)
+    hyg_elsewhere = [b for b in hygiene() if b not in bad_hyg]
 
     # 3. correspondence + property on the implementation (D)
     res = Result()
@@ -579,6 +582,7 @@ def main_check(prop, module, argv):
                 'kind': 'proof obligation or model/implementation correspondence no longer checks; no failing input found',
                 'seed': seed, 'tier': args.tier,
                 'proof_broken': proof_broken,
+        'hygiene_findings_outside_this_cone': hyg_elsewhere,
                 'correspondence_disagreements': [{'case': d.case, 'detail': d.detail} for d in res.disagreements[:10]],
                 'errors': res.errors[:10]})
             print('VIOLATION property=%s replay=%s no-failing-input-found' % (prop, path))
@@ -609,6 +613,7 @@ def main_check(prop, module, argv):
                                      for f in open_findings},
         'input_distribution': res.distribution,
         'proof_broken': proof_broken,
+        'hygiene_findings_outside_this_cone': hyg_elsewhere,
         'harness_errors': res.errors[:5],
         'explanation': getattr(module, 'EXPLANATION', ''),
     }
